@@ -20,6 +20,8 @@
                 invariant bcd_fold(data@, iter.index@ as nat, 0xff) == Some(rv as nat),
         //@ end
         open spec fn self_delimiting() -> bool { false }
+        open spec fn dec_rel(b: Seq<u8>, v: &u8, k: int) -> bool { true }
+        open spec fn dec_total() -> bool { false }
         open spec fn functional() -> bool { true }
         proof fn law_dec_bounds(b: Seq<u8>) {}
         proof fn law_dec_frame(b: Seq<u8>, s: Seq<u8>) {}
@@ -53,6 +55,8 @@
                 invariant bcd_fold(data@, iter.index@ as nat, 0xffff) == Some(rv as nat),
         //@ end
         open spec fn self_delimiting() -> bool { false }
+        open spec fn dec_rel(b: Seq<u8>, v: &u16, k: int) -> bool { true }
+        open spec fn dec_total() -> bool { false }
         open spec fn functional() -> bool { true }
         proof fn law_dec_bounds(b: Seq<u8>) {}
         proof fn law_dec_frame(b: Seq<u8>, s: Seq<u8>) {}
@@ -86,6 +90,8 @@
                 invariant bcd_fold(data@, iter.index@ as nat, 0xffff_ffff) == Some(rv as nat),
         //@ end
         open spec fn self_delimiting() -> bool { false }
+        open spec fn dec_rel(b: Seq<u8>, v: &u32, k: int) -> bool { true }
+        open spec fn dec_total() -> bool { false }
         open spec fn functional() -> bool { true }
         proof fn law_dec_bounds(b: Seq<u8>) {}
         proof fn law_dec_frame(b: Seq<u8>, s: Seq<u8>) {}
@@ -119,6 +125,8 @@
                 invariant bcd_fold(data@, iter.index@ as nat, 0xffff_ffff_ffff_ffff) == Some(rv as nat),
         //@ end
         open spec fn self_delimiting() -> bool { false }
+        open spec fn dec_rel(b: Seq<u8>, v: &u64, k: int) -> bool { true }
+        open spec fn dec_total() -> bool { false }
         open spec fn functional() -> bool { true }
         proof fn law_dec_bounds(b: Seq<u8>) {}
         proof fn law_dec_frame(b: Seq<u8>, s: Seq<u8>) {}
@@ -152,6 +160,8 @@
                 invariant bcd_fold(data@, iter.index@ as nat, 0xffff_ffff_ffff_ffff) == Some(rv as nat),
         //@ end
         open spec fn self_delimiting() -> bool { false }
+        open spec fn dec_rel(b: Seq<u8>, v: &usize, k: int) -> bool { true }
+        open spec fn dec_total() -> bool { false }
         open spec fn functional() -> bool { true }
         proof fn law_dec_bounds(b: Seq<u8>) {}
         proof fn law_dec_frame(b: Seq<u8>, s: Seq<u8>) {}
